@@ -9,7 +9,7 @@ def kernels : Kernels where
   cyclesSlice := fun cycles => fun l => pySlice 0 cycles l
   keepPair := fun p => p != (0, 0)
   sortTuple := true
-  filterInF := TopSearch.Pairs.ref.filterInF
+  filterInF := true
 /-- `unique_pairs` passes its result through `set(...)` -/
 def viaSet : Bool := true
 def dispatch (option : String) : Option Scheme :=
